@@ -717,4 +717,175 @@ theorem xatoi_total (buf : Bytes) (i : Int) (pad : Nat) (hlo : -2^63 ≤ i) (hhi
 example : obsA (XAtoi.run { p0 := [65], p1 := -42, p2 := 4 }) = .ok "A-0042".toList := by decide +kernel
 
 
+/-! ### `lex` -/
+
+namespace LX
+open Fabio.Generated.C20.XLex
+
+/-- a rune slice that came from a string: the code points -/
+def runes (cs : List Char) : List Int := cs.map fun c => (c.toNat : Int)
+
+def stN : LexState → Int
+  | .start => 0 | .text => 1 | .dollar => 2 | .field => 3 | .dot => 4 | .header => 5
+
+def tyN : ItemType → Int
+  | .text => 0 | .field => 1 | .header => 2
+
+/-- the `switch state` after the loop -/
+def fin (whole : List Char) : LexState → ItemType × Int
+  | .dot => (.field, (whole.length : Int) - 1)
+  | .field => (.field, whole.length)
+  | .header => (.header, whole.length)
+  | _ => (.text, whole.length)
+
+theorem lexLoop_nil (whole : List Char) (st : LexState) (k : Nat) : lexLoop whole st k [] = fin whole st := by
+  cases st <;> simp [lexLoop, fin]
+
+theorem toNat_eq (c d : Char) : ((c.toNat : Int) == (d.toNat : Int)) = decide (c = d) := by
+  have : (c.toNat : Int) = (d.toNat : Int) ↔ c = d := by
+    constructor
+    · intro h
+      have : c.toNat = d.toNat := by omega
+      exact Char.ext (UInt32.toNat_inj.mp this)
+    · intro h; rw [h]
+  cases hd : decide (c = d) <;> simp_all
+
+theorem char_le (a c : Char) : (a ≤ c) ↔ ((a.toNat : Int) ≤ (c.toNat : Int)) := by
+  rw [Char.le_def, UInt32.le_iff_toNat_le]
+  show a.val.toNat ≤ c.val.toNat ↔ ((a.val.toNat : Nat) : Int) ≤ ((c.val.toNat : Nat) : Int)
+  omega
+
+theorem idchar (c : Char) : fn0 (c.toNat : Int) = isIDChar c := by
+  unfold fn0 isIDChar
+  have e1 := toNat_eq c '_'
+  have e2 := toNat_eq c '-'
+  have h95 : (('_' : Char).toNat : Int) = 95 := rfl
+  have h45 : (('-' : Char).toNat : Int) = 45 := rfl
+  rw [h95] at e1; rw [h45] at e2
+  rw [e1, e2]
+  simp only [leI_eq, char_le, show (('a' : Char).toNat : Int) = 97 from rfl, show (('z' : Char).toNat : Int) = 122 from rfl,
+    show (('A' : Char).toNat : Int) = 65 from rfl, show (('Z' : Char).toNat : Int) = 90 from rfl,
+    show (('0' : Char).toNat : Int) = 48 from rfl, show (('9' : Char).toNat : Int) = 57 from rfl]
+  rfl
+
+theorem runes_take (whole : List Char) (k : Nat) : (runes whole).take k = runes (whole.take k) := by
+  simp [runes, List.map_take]
+
+theorem runes_inj (a b : List Char) : (runes a == runes b) = decide (a = b) := by
+  have inj : Function.Injective (fun c : Char => (c.toNat : Int)) := by
+    intro c d h
+    have : c.toNat = d.toNat := by simp only at h; omega
+    exact Char.ext (UInt32.toNat_inj.mp this)
+  have : runes a = runes b ↔ a = b := ⟨fun h => (List.map_inj_right inj).mp h, fun h => by rw [h]⟩
+  cases hd : decide (a = b) <;> simp_all
+
+theorem header_runes : ([36, 104, 101, 97, 100, 101, 114] : List Int) = runes headerPrefix := by decide
+
+/-- what the `range` loop of the translated `lex` does, against the model's `lexLoop`: an early `return` is the
+model's answer; otherwise the loop falls through in some state and the model's answer is that state's final case -/
+def LoopRel (whole : List Char) (s : St) (fl : Flow Rho St) (m : ItemType × Int) : Prop :=
+  match fl with
+  | .ret (t, n) _ => (t, n) = (tyN m.1, m.2)
+  | .next s' => s'.p0 = s.p0 ∧ ∃ st', s'.l0 = stN st' ∧ m = fin whole st'
+  | _ => False
+
+inductive Step where
+  | goto (st : LexState)
+  | done (ty : ItemType)
+
+/-- one rune of the model's state machine -/
+def step (whole : List Char) (k : Nat) : LexState → Char → Step
+  | .start, r => if r = '$' then .goto .dollar else .goto .text
+  | .text, r => if r = '$' then .done .text else .goto .text
+  | .dollar, r => if isIDChar r then .goto .field else .goto .text
+  | .field, r =>
+    if r = '.' then (if whole.take k = headerPrefix then .goto .dot else .done .field)
+    else if isIDChar r then .goto .field else .done .field
+  | .dot, r => if isIDChar r then .goto .header else .done .field
+  | .header, r => if isIDChar r then .goto .header else .done .header
+
+theorem lexLoop_cons (whole : List Char) (st : LexState) (k : Nat) (c : Char) (cs : List Char) :
+    lexLoop whole st k (c :: cs) =
+      match step whole k st c with
+      | .goto st' => lexLoop whole st' (k+1) cs
+      | .done ty => (ty, (k : Int)) := by
+  cases st <;> simp only [lexLoop, step] <;> repeat (split <;> try rfl)
+
+theorem body_spec (whole : List Char) (k : Nat) (st : LexState) (c : Char) (s : St)
+    (hp : s.p0 = runes whole) (hs : s.l0 = stN st) (hk : s.l1 = k) (hc : s.l2 = (c.toNat : Int)) (hl : k ≤ whole.length) :
+    loop0Body s =
+      match step whole k st c with
+      | .goto st' => .next { s with l0 := stN st' }
+      | .done ty => .ret (tyN ty, (k : Int)) s := by
+  have d36 : (s.l2 == (36 : Int)) = decide (c = '$') := by rw [hc]; exact toNat_eq c '$'
+  have d46 : (s.l2 == (46 : Int)) = decide (c = '.') := by rw [hc]; exact toNat_eq c '.'
+  have hid : fn0 s.l2 = isIDChar c := by rw [hc]; exact idchar c
+  have hsl : lsliceTo s.p0 s.l1 = .ok (runes (whole.take k)) := by
+    rw [hp, hk, ← runes_take]
+    unfold lsliceTo
+    have : (k : Int) ≤ ((runes whole).length : Int) := by simp [runes]; omega
+    simp [this]
+  unfold loop0Body
+  have hh : ∀ x : List Char, (runes x == ([36, 104, 101, 97, 100, 101, 114] : List Int)) = decide (x = headerPrefix) := by
+    intro x; rw [header_runes]; exact runes_inj x headerPrefix
+  cases st <;> simp only [stN] at hs <;> simp only [ifS, hs, step, d36, d46, hid, assign, Xlate.ret, skip, hsl, V.bind_ok, V.pure_eq, hh] <;>
+    by_cases h1 : c = '$' <;> by_cases h2 : isIDChar c = true <;> by_cases h3 : c = '.' <;>
+    by_cases h4 : List.take k whole = headerPrefix <;> simp [h1, h2, h3, h4, hk, tyN, stN] <;>
+    (cases s; simp_all)
+
+theorem LoopRel.frame {whole : List Char} {s s1 : St} {fl : Flow Rho St} {m : ItemType × Int}
+    (h : LoopRel whole s1 fl m) (hf : s1.p0 = s.p0) : LoopRel whole s fl m := by
+  unfold LoopRel at h ⊢
+  cases fl <;> simp_all
+
+theorem loop_spec (whole rest : List Char) (k : Nat) (st : LexState) (s : St)
+    (hp : s.p0 = runes whole) (hs : s.l0 = stN st) (hl : whole.length = k + rest.length) :
+    LoopRel whole s (forEachL (fun k x s => { s with l1 := Int.ofNat k, l2 := x }) loop0Body (runes rest) k s)
+      (lexLoop whole st k rest) := by
+  induction rest generalizing k st s with
+  | nil =>
+    simp only [runes, List.map_nil, forEachL, LoopRel, lexLoop_nil]
+    exact ⟨trivial, st, hs, rfl⟩
+  | cons c cs ih =>
+    simp only [runes, List.map_cons, forEachL]
+    have hb := body_spec whole k st c { s with l1 := Int.ofNat k, l2 := (c.toNat : Int) } hp hs rfl rfl (by omega)
+    rw [hb, lexLoop_cons]
+    cases hstep : step whole k st c with
+    | goto st' =>
+      simp only
+      have := ih (k+1) st' { s with l0 := stN st', l1 := Int.ofNat k, l2 := (c.toNat : Int) } hp rfl (by simp at hl; omega)
+      exact this.frame rfl
+    | done ty =>
+      simp [LoopRel]
+
+end LX
+
+/-- **The translated `lex` equals the model's on every rune slice that came from a string** (`parse` calls it on
+`[]rune(format)` only): same item type, same length; it never panics — in particular `s[:i]` stays in range. -/
+theorem xlex_eq_model (cs : List Char) :
+    ∃ s', XLex.run { p0 := LX.runes cs } = .ok ((LX.tyN (lex cs).1, (lex cs).2), s') := by
+  unfold XLex.run Xlate.run XLex.body
+  simp only [seq, assign, forEach, XLex.loop0List]
+  have L := LX.loop_spec cs cs 0 .start { p0 := LX.runes cs, l0 := 0 } rfl rfl (by simp)
+  rw [show lexLoop cs .start 0 cs = lex cs from rfl] at L
+  generalize forEachL _ XLex.loop0Body _ 0 _ = fl at L ⊢
+  cases fl <;> simp only [LX.LoopRel] at L
+  · rename_i s1
+    obtain ⟨hp, st', hs, hm⟩ := L
+    rw [hm]
+    cases st' <;> simp only [LX.stN] at hs <;>
+      simp [ifS, hs, Xlate.ret, LX.fin, LX.tyN, llen, hp, LX.runes]
+  · rename_i r s1
+    obtain ⟨t, n⟩ := r
+    have L' : (t, n) = (LX.tyN (lex cs).1, (lex cs).2) := L
+    exact ⟨s1, by simp only [L']⟩
+
+/-- `lex_progress` transferred: on a non-empty rune slice the translated `lex` answers a length between 1 and the
+length of the slice — the loop of `parse` terminates and its `s[:n]`, `s[n:]` are in range. -/
+theorem xlex_progress (cs : List Char) (h : cs ≠ []) :
+    ∃ t n s', XLex.run { p0 := LX.runes cs } = .ok ((t, n), s') ∧ 1 ≤ n ∧ n ≤ cs.length := by
+  obtain ⟨s', hs'⟩ := xlex_eq_model cs
+  exact ⟨_, _, s', hs', Props.C20.lex_progress cs h⟩
+
+
 end Fabio.Props.C20Xlate
